@@ -197,10 +197,12 @@ func fillMapFromKeyArgs(s *slip.Scope, args slip.List, m map[string]slip.Object,
 type getter string
 
 // Call returns the value of a variable in the instance.
-func (g getter) Call(scope *slip.Scope, args slip.List, _ int) slip.Object {
+func (g getter) Call(scope *slip.Scope, args slip.List, depth int) slip.Object {
 	self := scope.Get("self").(slip.Instance)
 	value, _ := self.SlotValue(slip.Symbol(g))
-
+	if value == slip.Unbound {
+		value = slotUnbound(scope, self, slip.Symbol(g), depth)
+	}
 	return value
 }
 
